@@ -160,8 +160,9 @@ func (r *renderer) showInURL(env *env, v any, ctx ast.Context) error {
 
 	if r.query {
 		if r.removeQuestionMark {
-			c := s[len(s)-1]
-			r.addAmpersand = c != '&'
+			if len(s) > 0 {
+				r.addAmpersand = s[len(s)-1] != '&'
+			}
 			_, err := pathEscape(out, s, ctx == ast.ContextQuotedAttr)
 			return err
 		}
